@@ -51,6 +51,12 @@ def _scatter(A, row):
 
 def _variants(case):
     A = gen.orientations(case["tex"])
+    # same values, other memory layouts (Fortran order / component-first view) for some cases
+    lay = case["perm"] % 3
+    if lay == 1:
+        A = np.asfortranarray(A)
+    elif lay == 2:
+        A = np.moveaxis(np.ascontiguousarray(np.moveaxis(A, 0, -1)), -1, 0)
     n = len(A)
     Q = gen.rot(case["Q"])
     rng = np.random.default_rng(case["perm"])
